@@ -16,4 +16,5 @@ import (
 	_ "verif/props/c12"
 	_ "verif/props/c13"
 	_ "verif/props/c14"
+	_ "verif/props/c16"
 )
